@@ -3,7 +3,10 @@
 \*    depth 3 over {true,false} with one side of depth <= 1 (and/or(d2,d1), and/or(d1,d2), wrappers(d2)) for Runtime::emit;
 \* R: nested Runtime scenario for all 6 entries; node kinds as in quick (wrapping::from_fn, nested Runtime, AssertInternal included);
 \* D: all destination trees of depth <= 2 x all entries, and depth 3 (and(d2,d1), and(d1,d2), erased/Some/Arc(d2), wrap(f,d2)) for rt / direct.
-\* W: forms: wrappings by value / borrowed / type-erased, fn-pointer filters and destinations, filter::always(), events built with with_*.
+\* W: forms: wrappings by value / borrowed / type-erased (with and without Send + Sync), fn-pointer filters and destinations,
+\*    filter::always(), events built with with_* / map_props and passed borrowed + erased.
+\* V: forms of the runtime's context / clock / rng: by value, &, Box, Arc, Some, Box<dyn Erased..>, AssertInternal, None, Empty
+\*    x events with / without extent x 4 ambient sets x clock {none, 7} x 3 filter predicates.
 SPECIFICATION Spec
 CONSTANTS
     Scens <- MC_Scens
